@@ -4,7 +4,7 @@ LEVEL = 'proof'
 PROP = 'C02'
 """C02 — quantization preserves the graph skeleton and the model I/O contract."""
 def run(rep):
-    gc.insert_obligations(rep, PROP); gc.performer_obligations(rep, PROP); gc.signature_obligations(rep, PROP); gc.tensorinfo_obligations(rep, PROP); gc.vertical_obligations(rep, PROP); gc.produce_obligations(rep, PROP)
+    gc.insert_obligations(rep, PROP); gc.performer_obligations(rep, PROP); gc.signature_obligations(rep, PROP); gc.tensorinfo_obligations(rep, PROP); gc.vertical_obligations(rep, PROP); gc.produce_obligations(rep, PROP); gc.compose_obligations(rep, PROP)
     gc.bounded_insert(rep); gc.e2e_standin(rep, PROP, sampled3=(300 if rep.tier == 'thorough' else 0))
     gc.canaries(rep); gc.performer_canaries(rep)
     rep.assume('the call of _remap_signature_outputs from transform_graph with the pre-transformation outputs, the deep copy in ModelModifier.modify_model (frame proved under C14) and the generator -> performer composition are covered by the bounded end-to-end stand-in only')
